@@ -516,32 +516,10 @@ func c02BuilderScopes(c *Ctx) map[string]map[string]int {
 		r.Check(okScope, "C02-d", "G.builder.writeRuleCode:rule-scope", "", g.Where(wrc.Pos()), "each rule's code is generated in its own scope", why)
 		out["$rule"] = map[string]int{"Expr": 1}
 	}
-	// the scope stack primitives of the builder
-	shape := func(fn string) string {
-		fd := load.FuncDecl(bp, "builder", fn)
-		if fd == nil {
-			return "missing"
-		}
-		var parts []string
-		ast.Inspect(fd.Body, func(n ast.Node) bool {
-			switch x := n.(type) {
-			case *ast.AssignStmt:
-				parts = append(parts, nospace(x.Lhs[0])+x.Tok.String()+nospace(x.Rhs[0])+"["+strings.Join(guardsOf(fd.Body, x.Pos()), ";")+"]")
-			case *ast.ReturnStmt:
-				parts = append(parts, "return["+strings.Join(guardsOf(fd.Body, x.Pos()), ";")+"]")
-			}
-			return true
-		})
-		return strings.Join(parts, " ")
-	}
-	wantShapes := map[string]string{
-		"pushArgsSet": "b.argsStack=append(b.argsStack,nil)[]",
-		"popArgsSet":  "b.argsStack=b.argsStack[:len(b.argsStack)-1][]",
-		"addArg":      "return[arg==nil] ix:=len(b.argsStack)-1[] b.argsStack[ix]=append(b.argsStack[ix],arg.Val)[]",
-	}
-	for fn, want := range wantShapes {
-		got := shape(fn)
-		r.Check(got == want, "C02-d", "G.builder."+fn+":shape", "", "builder/builder.go", want, "body performs ["+got+"], expected ["+want+"]: label scopes of generated methods would not nest as the runtime's variable stack does")
+	// the scope stack primitives of the builder, on their normalised paths (argstack_n.go)
+	asp := argStackProblems(c, func(recv, name string) *ast.FuncDecl { return load.FuncDecl(bp, recv, name) })
+	for _, fn := range []string{"pushArgsSet", "popArgsSet", "addArg"} {
+		r.Check(len(asp[fn]) == 0, "C02-d", "G.builder."+fn+":shape", "", "builder/builder.go", "push appends one empty scope, pop removes exactly the top one, addArg appends a present label to the top scope", strings.Join(asp[fn], "; ")+": label scopes of generated methods would not nest as the runtime's variable stack does")
 	}
 	// stubs read the top of the variable stack
 	sk := c.Skel()
